@@ -3,7 +3,7 @@
 Props/C10gen.v and Props/TieGen.v checking; BREAKING edits must make a theorem fail.
 usage: pygen_mutations.py [worktree=/tmp/wt-pygen] [coq=/work/pygen/coq] [name-filter]
 (the worktree is a scratch checkout of /repo: git -C /repo worktree add /tmp/wt-pygen HEAD)"""
-import os, subprocess, sys, time
+import os, re, subprocess, sys, time
 
 WT = sys.argv[1] if len(sys.argv) > 1 else "/tmp/wt-pygen"
 COQ = sys.argv[2] if len(sys.argv) > 2 else "/work/pygen/coq"
@@ -868,7 +868,7 @@ def sh(cmd, **kw):
 def main():
     res = []
     for name, kind, edits in M:
-        if FILT and FILT not in name:
+        if FILT and not (FILT in name or (FILT.startswith('^') and re.search(FILT, name))):
             continue
         sh("git -C %s checkout -q -- pabutools" % WT)
         ok = True
